@@ -5,7 +5,8 @@ import AtreeModel.Codec.Decode
 
   The theorems about slabs (`AtreeProofs/Props/C07.lean`) assume predicates — `DataOK`, `MetaOK`,
   `validElem`, `MapMetaOK`, `MapDataOK`, `ArrDataOKW`, `MapDataOKI`, `ArrDataOKI`, `MapDataOKC`,
-  `ArrDataOKC`, built from `Stor.RT`, `Stor.RTI`, `Stor.OK`, `noInl`, `noCompact`, `nodupKeys`,
+  `ArrDataOKC`, `MapDataOKX`, `ArrDataOKX`, `ArrDataOKWX` (the last three: with the exact nesting
+  clause `Slab.vdepth ≤ maxNestedLevels`), built from `Stor.RT`, `Stor.RTI`, `Stor.OK`, `noInl`, `noCompact`, `nodupKeys`,
   `vneed`, `vneedI`, `validTy`, `validMapExtra`, `validNext`, `XOK`, `XOKC` — that live in
   `AtreeProofs` (Prop-valued, not importable here).  This file re-defines every one of them as a
   `Bool` (resp. `Nat`) function with the same recursion, clause by clause, so that the trace replayer
@@ -389,6 +390,25 @@ def arrDataOKCB (a : ArrData) : Bool :=
       (decide ((encSts a.elems []).2.length ≤ 256) && (validNextB a.next &&
         (optAllB validTyB a.ty && decide (a.size ≤ maxUint32))))))))
 
+/-- `MapDataOKX` (VDepthSlab.lean): `MapDataOKC` with the EXACT nesting clause `Slab.vdepth ≤ maxNestedLevels` -/
+def mapDataOKXB (s : MapData) : Bool :=
+  s.els.rtiB && (s.els.nodupKeysB && (decide ((Slab.mdata s).vdepth ≤ maxNestedLevels) &&
+    (decide ((encMEls s.els []).2.length ≤ 256) && (validNextB s.next &&
+      (optAllB validMapExtraB s.extra && decide (s.size ≤ maxUint32))))))
+
+/-- `ArrDataOKX` (VDepthSlab.lean): `ArrDataOKC` with the exact nesting clause -/
+def arrDataOKXB (a : ArrData) : Bool :=
+  rtiStsB a.elems && (nodupKeysStsB a.elems && (decide ((Slab.adata a).vdepth ≤ maxNestedLevels) &&
+    (decide (a.elems.length < 65536) && (!(encSts a.elems []).2.isEmpty &&
+      (decide ((encSts a.elems []).2.length ≤ 256) && (validNextB a.next &&
+        (optAllB validTyB a.ty && decide (a.size ≤ maxUint32))))))))
+
+/-- `ArrDataOKWX` (VDepthW.lean): `ArrDataOKW` with the exact nesting clause -/
+def arrDataOKWXB (a : ArrData) : Bool :=
+  rtiStsB a.elems && (noInlStsB a.elems && (a.elems.any (fun s => !s.isFlat) &&
+    (decide ((Slab.adata a).vdepth ≤ maxNestedLevels) && (decide (a.elems.length < 65536) &&
+      (validNextB a.next && (optAllB validTyB a.ty && decide (a.size ≤ maxUint32)))))))
+
 /-- the hypotheses of `C07.decode_encode_storable_wrapped` on the storable of a large-value slab:
     it is a wrapper `some x` with `x.RT`, `x.noInl`, `x.vneed + 1 ≤ maxNestedLevels` -/
 def storableGOKB : Stor → Bool
@@ -397,20 +417,26 @@ def storableGOKB : Stor → Bool
 
 /-! ### the dispatcher -/
 
-/-- The REQUIRED clauses for the slab's kind: one entry per clause of the predicate under which the
-    most general round-trip theorem for that kind is stated, with the clause's field name:
+/-- The REQUIRED clauses for the slab's kind: one entry per clause of `SlabOKG` (the predicate under
+    which the general theorems `C07.decode_encode`, `C07.reencode_fixpoint`, `C06.enc_len`,
+    `C06.decoded_size_eq` are stated) for that kind, with the clause's field name:
 
     * `.data`     — `SlabOK` = `DataOK` (+ `tyRoot`: the type info is present exactly for roots)
     * `.index`    — `SlabOK` = `MetaOK` (+ `tyRoot`)
     * `.storable` — `validElem`
     * `.mindex`   — `MapMetaOK`
-    * `.mdata`    — `MapDataOKC`
-    * `.adata`    — `ArrDataOKC` or `ArrDataOKW`: the clauses the two share, `nodupKeys` and `entries`
-                    (trivially true without inlined slabs), and `inlined-or-wrapped` = `ArrDataOKC.inlined`
-                    or (`ArrDataOKW.noInl` and `ArrDataOKW.wrapped`)
+    * `.mdata`    — `MapDataOKX`
+    * `.adata`    — `ArrDataOKX` or `ArrDataOKWX`: the clauses the two share, `nodupKeys` and `entries`
+                    (trivially true without inlined slabs), and `inlined-or-wrapped` = `ArrDataOKX.inlined`
+                    or (`ArrDataOKWX.noInl` and `ArrDataOKWX.wrapped`)
     * `.storableG` — the hypotheses of `C07.decode_encode_storable_wrapped`
 
-    `nest-vneed` is the nesting clause as the theorems state it (`vneedI`, an over-approximation). -/
+    `nest-exact` (`.mdata` / `.adata`) is the EXACT nesting clause: the validator depth of the register
+    (`Slab.vdepth`, Limits.lean) is within the limit; one level more and the register does not decode
+    (`C07.decodes_iff_depth_mdata` / `_adata`).  The older, non-tight clause of `MapDataOKC` /
+    `ArrDataOKC` / `ArrDataOKW` (`vneedI`, an over-approximation) is the informative entry `nest-vneed`
+    of `hypInfo`.  (`.storableG`: the theorem is still stated with `vneed`; there `nest-vneed` is the
+    required clause and `nest-exact` the informative one.) -/
 def Slab.hypReq : Slab → List (String × Bool)
   | .data ty s =>
     let t := ty.getD default
@@ -440,7 +466,7 @@ def Slab.hypReq : Slab → List (String × Bool)
     let xs := (encSts a.elems []).2
     [ ("rt", rtiStsB a.elems),
       ("nodupKeys", nodupKeysStsB a.elems),
-      ("nest-vneed", decide (vneedIStsB a.elems + 1 ≤ maxNestedLevels)),
+      ("nest-exact", decide ((Slab.adata a).vdepth ≤ maxNestedLevels)),
       ("count", decide (a.elems.length < 65536)),
       ("inlined-or-wrapped", !xs.isEmpty || (noInlStsB a.elems && a.elems.any (fun s => !s.isFlat))),
       ("entries", decide (xs.length ≤ 256)),
@@ -450,7 +476,7 @@ def Slab.hypReq : Slab → List (String × Bool)
   | .mdata m =>
     [ ("rt", m.els.rtiB),
       ("nodupKeys", m.els.nodupKeysB),
-      ("nest-vneed", decide (m.els.vneedIB ≤ maxNestedLevels)),
+      ("nest-exact", decide ((Slab.mdata m).vdepth ≤ maxNestedLevels)),
       ("entries", decide ((encMEls m.els []).2.length ≤ 256)),
       ("next", validNextB m.next),
       ("extra", optAllB validMapExtraB m.extra),
@@ -469,21 +495,23 @@ def Slab.hypReq : Slab → List (String × Bool)
         ("nest-vneed", decide (x.vneedB + 1 ≤ maxNestedLevels)) ]
     | _ => [ ("wrapped", false) ]
 
-/-- INFORMATIVE entries (not hypotheses of the most general theorem of the kind):
-    `nest-exact` — the exact validator depth (`Slab.vdepth`, Limits.lean) is within the limit (it is
-    what the decoder really needs; `nest-vneed`, the clause of the theorems, over-approximates it);
+/-- INFORMATIVE entries (not hypotheses of the general theorems):
+    `nest-vneed` (`.adata` / `.mdata`) — the older, non-tight nesting clause (`vneedI`, the clause of
+    `MapDataOKC` / `ArrDataOKC` / `ArrDataOKW`; it implies the required `nest-exact`, real slabs with
+    nested inlined children fail it and decode fine);
+    `nest-exact` (the other kinds) — the exact validator depth (`Slab.vdepth`) is within the limit;
     `noCompact` — no inlined map is written in the compact form (then the `…OKI` theorems apply and
     the decoded slab is the encoded one); `noInl` — no inlined slab at all (`MapDataOK` / `ArrDataOKW`);
     `xokc` — the encoder's final extra-data list satisfies `XOKC` (it follows from `rt`). -/
 def Slab.hypInfo (s : Slab) : List (String × Bool) :=
   match s with
   | .adata a =>
-    [ ("nest-exact", decide (s.vdepth ≤ maxNestedLevels)),
+    [ ("nest-vneed", decide (vneedIStsB a.elems + 1 ≤ maxNestedLevels)),
       ("noCompact", noCompactStsB a.elems),
       ("noInl", noInlStsB a.elems),
       ("xokc", xokcB (encSts a.elems []).2) ]
   | .mdata m =>
-    [ ("nest-exact", decide (s.vdepth ≤ maxNestedLevels)),
+    [ ("nest-vneed", decide (m.els.vneedIB ≤ maxNestedLevels)),
       ("noCompact", m.els.noCompactB),
       ("noInl", m.els.noInlB),
       ("xokc", xokcB (encMEls m.els []).2) ]
@@ -492,12 +520,15 @@ def Slab.hypInfo (s : Slab) : List (String × Bool) :=
 /-- every clause with a stable name: the required ones, then the informative ones -/
 def Slab.hypReport (s : Slab) : List (String × Bool) := s.hypReq ++ s.hypInfo
 
-/-- all required clauses hold: the slab is in the domain of the round-trip theorem of its kind
-    (`C07.hyp_sound`) -/
+/-- all required clauses hold: the slab is in the domain of the general theorems (`SlabOKG`,
+    `C07.hypOK_iff`) -/
 def Slab.hypOK (s : Slab) : Bool := s.hypReq.all (fun p => p.2)
 
-/-- names of the failed clauses of the report, except those listed in `optional` (for the replayer) -/
-def Slab.hypFailed (s : Slab) (optional : List String := ["nest-exact", "noCompact", "noInl", "xokc"]) : List String :=
-  (s.hypReport.filter (fun p => !p.2 && !optional.contains p.1)).map (fun p => p.1)
+/-- names of the failed clauses of the report (for the replayer): every failed REQUIRED clause, and the
+    failed informative ones except those listed in `optional`.  (`optional` never hides a required
+    clause: the large-value slab's required nesting clause is called `nest-vneed` too.) -/
+def Slab.hypFailed (s : Slab) (optional : List String := ["nest-vneed", "noCompact", "noInl", "xokc"]) : List String :=
+  (s.hypReq.filter (fun p => !p.2)).map (fun p => p.1) ++
+    (s.hypInfo.filter (fun p => !p.2 && !optional.contains p.1)).map (fun p => p.1)
 
 end Atree.Codec
